@@ -52,6 +52,7 @@ FUNCS = [
     ("retain", IMPL, "str_retain", [("f", "closure")], UNIT),
     ("drain", IMPL, "str_drain", [("range", "range")], DRAIN),
     ("drop", "Drop for Drain<'a, 'bump>", "str_drain_drop", [("self.start", NAT), ("self.end", NAT)], UNIT),
+    ("replace_range", IMPL, "str_replace_range", [("#ovf", "ovf"), ("range", "range"), ("replace_with", BYTES)], UNIT),
 ]
 LEAN_TY = {NAT: "Nat", BOOL: "Bool", BYTES: "Str.Bytes", CH: "(Char × Nat)", OPTCH: "(Option (Char × Nat))", UNIT: "Unit", U8: "UInt8",
            DRAIN: "(Nat × Nat)"}
@@ -300,11 +301,15 @@ class T:
                         if name == "split_off" and len(pa) == 1: return self.bindc(f"RsS.split_off {pa[0][0]}", BYTES, e1, k, can_panic=True)
                         if name == "drain" and len(pa) == 1 and pa[0][1] == "rangeval":
                             return self.bindc(f"RsS.vec_drain {pa[0][0][0]} {pa[0][0][1]}", UNIT, e1, k, can_panic=True)
+                        if name == "splice" and len(pa) == 2 and pa[0][1] == "range" and pa[1][1] == BYTES and "#ovf" in e1:
+                            # `Vec::<u8>::splice(range, bytes)` dropped at once: `Vec::drain(range)` (its own `n + 1`, checked only
+                            # under the build profile `ovf` unless the source says otherwise) and the replacement in the gap
+                            return self.bindc(f"RsS.vec_splice ovf {pa[0][0]} {pa[1][0]}", UNIT, e1, k, can_panic=True)
                         if name in BY_NAME:
                             return self.bindc(f"Gen.Fn.{BY_NAME[name]} {' '.join(a for a, _ in pa)}", UNIT, e1, k, can_panic=True)
                     if ty == CH and name == "len_utf8" and not pa: return k(f"{t}.2", NAT, e1)
                     if ty == CH and name == "encode_utf8": return k(f"(Str.encChar {t}.1)", BYTES, e1)
-                    if ty == BYTES and name in ("as_bytes",) and not pa: return k(t, BYTES, e1)
+                    if ty == BYTES and name in ("as_bytes", "bytes") and not pa: return k(t, BYTES, e1)
                     if ty == BYTES and name == "len" and not pa: return k(f"{t}.length", NAT, e1)
                     if ty == "range" and name in ("start_bound", "end_bound"): return k(f"{t}.{1 if name == 'start_bound' else 2}", BD, e1)
                     raise Untranslatable(f"method .{name} on {ty}")
@@ -389,7 +394,9 @@ class T:
         env, ps = {}, []
         pre = ""
         for n, ty in params:
-            if ty == "closure":
+            if ty == "ovf":
+                env[n] = ("ovf", "ovf"); ps.append("(ovf : Bool)")
+            elif ty == "closure":
                 env[n] = (n, "closure"); ps.append("(ans : Nat → Bool) (panicAt : Option Nat)")
                 env[n + "__calls"] = ("calls_0", NAT); pre += "let calls_0 := 0;\n"
             elif ty == "range":
